@@ -20,6 +20,10 @@ pub enum Case {
     Strings(Vec<String>),
     /// A tree: the walk, the listing and the written index must follow the order.
     Walk { opts: Opts, tree: Tree },
+    /// A tree that changes while it is backed up: when the backup reports the `when`-th file,
+    /// the `trunc`-th later file of the same directory is truncated to nothing. The written
+    /// index and the listing must still be strictly increasing.
+    WalkChanging { opts: Opts, tree: Tree, when: u16, trunc: u16 },
 }
 
 pub const ALPHABET: &[&str] = &["a", "a.", "a-", "a b", "b", "é", ".x", "~"];
@@ -136,6 +140,21 @@ fn check_contiguity(paths: &[Apath]) -> CaseResult {
 }
 
 fn enumerate(tier: Tier, idx: u32, of: u32, cx: &mut Cx) -> CaseResult {
+    if crate::probes::mine(idx, of) {
+        // scale probe (see probes.rs): walk, written index and listing of a 10 012-file tree
+        // with one entry per index hunk
+        let (opts, tree) = crate::probes::many_hunks_tree(10_012);
+        let sub = cx.dir("many-hunks");
+        std::fs::create_dir_all(&sub).unwrap();
+        let mut cx2 = crate::engine::sub_cx(cx, sub.clone());
+        run(&Case::Walk { opts, tree }, &mut cx2).map_err(|mut f| {
+            f.signature = format!("{}/probe-many-hunks", f.signature);
+            f
+        })?;
+        crate::engine::force_remove(&sub);
+        cx.add_evals(1);
+        cx.inner_nontrivial += 1;
+    }
     let (idx, of) = (idx as usize, of as usize);
     // (a) ordered pairs over the depth<=4 universe
     let u: Vec<Apath> = universe(ALPHABET, 4).into_iter().map(Apath::from).collect();
@@ -237,6 +256,8 @@ fn strategy(_tier: Tier) -> BoxedStrategy<Case> {
         2 => prop::collection::vec(path_strategy(), 2..12).prop_map(Case::Paths),
         1 => prop::collection::vec(junk_string(), 1..8).prop_map(Case::Strings),
         5 => tree::opts_tree_strategy(TreeCfg::plain()).prop_map(|(opts, tree)| Case::Walk { opts, tree }),
+        1 => (tree::opts_tree_strategy(TreeCfg { max_children: 8, links: false, ..TreeCfg::plain() }), any::<u16>(), any::<u16>())
+            .prop_map(|((opts, tree), when, trunc)| Case::WalkChanging { opts: Opts { cap: opts.cap.max(4096), ..opts }, tree, when, trunc }),
     ]
     .boxed()
 }
@@ -282,6 +303,56 @@ fn run(case: &Case, cx: &mut Cx) -> CaseResult {
             cx.nontrivial = ss.iter().any(|s| s.starts_with('/') && !ref_valid(s)) && ss.iter().any(|s| ref_valid(s));
             Ok(())
         }
+        Case::WalkChanging { opts, tree, when, trunc } => {
+            let src = cx.dir("src");
+            let arch = cx.dir("arch");
+            tree::materialise(tree, &src);
+            // files by directory, in walk order
+            let mut files: Vec<&String> = tree.0.iter().filter(|(_, n)| matches!(n.kind, tree::Kind::File { len, .. } if len > 0)).map(|(p, _)| p).collect();
+            files.sort_by(|a, b| ref_cmp(a, b));
+            if files.len() < 2 {
+                return Ok(());
+            }
+            let wi = (*when as usize * (files.len() - 1)) >> 16;
+            let trigger = files[wi].clone();
+            let later: Vec<&String> = files[wi + 1..]
+                .iter()
+                .copied()
+                .filter(|p| tree::parent_of(p) == tree::parent_of(&trigger))
+                .collect();
+            let victim = if later.is_empty() { None } else { Some(later[(*trunc as usize * later.len()) >> 16].clone()) };
+            let c = ops::create_archive(&arch);
+            ensure!(c.clean(), "C11/create", "{}", c.describe());
+            let src2 = src.clone();
+            let v2 = victim.clone();
+            ops::set_on_change(Some(Box::new(move |apath: &str| {
+                if apath == trigger {
+                    if let Some(v) = &v2 {
+                        let _ = std::fs::write(tree::fs_path(&src2, v), b"");
+                    }
+                }
+            })));
+            let b = ops::backup(&arch, &None, &src, *opts, &[]);
+            ops::set_on_change(None);
+            ensure!(b.panic.is_none() && b.result.is_ok(), "C11/backup-of-changing-tree-failed", "{}", b.describe());
+            let ra = format::scan(&arch);
+            let band = ra.bands.get(&0).ok_or_else(|| Failure::new("C11/no-band", "no b0000"))?;
+            let mut idx_paths = vec![];
+            for h in &band.hunks {
+                match &h.entries {
+                    Ok(es) => idx_paths.extend(es.iter().map(|e| e.apath.clone())),
+                    Err(e) => fail!("C11/hunk-undecodable", "{}: {e}", h.relpath),
+                }
+            }
+            strictly_increasing("written-index", &idx_paths)?;
+            let l = ops::list_entries(&arch, &None, &Sel::Band(0), "/", &[], 10_000);
+            ensure!(l.panic.is_none() && l.result.is_ok(), "C11/list-error", "{}", l.describe());
+            let listing: Vec<String> = l.result.unwrap().iter().map(|e| e.apath.to_string()).collect();
+            strictly_increasing("listing", &listing)?;
+            cx.label("tree-changing-during-backup");
+            cx.nontrivial = victim.is_some();
+            Ok(())
+        }
         Case::Walk { opts, tree } => {
             let src = cx.dir("src");
             let arch = cx.dir("arch");
@@ -312,7 +383,7 @@ fn run(case: &Case, cx: &mut Cx) -> CaseResult {
             strictly_increasing("written-index", &idx_paths)?;
             ensure!(idx_paths == model, "C11/index-set", "index {idx_paths:?} != model {model:?}");
 
-            let l = ops::list_entries(&arch, &None, &Sel::Band(0), "/", &[], 10_000);
+            let l = ops::list_entries(&arch, &None, &Sel::Band(0), "/", &[], model.len() * 2 + 100);
             ensure!(l.clean(), "C11/list-error", "{}", l.describe());
             let listing: Vec<String> = l.result.unwrap().iter().map(|e| e.apath.to_string()).collect();
             strictly_increasing("listing", &listing)?;
@@ -337,7 +408,7 @@ pub fn prop() -> Prop<Case> {
     Prop {
         id: "C11",
         level: "exploration",
-        rule: "enumeration: every ordered pair of the 4681 paths of depth<=4 over {a, a., a-, 'a b', b, é, .x, ~} (cmp vs documented order, antisymmetry, equality), every triple of the 259 paths of depth<=3 over 6 of them (transitivity), contiguity/children-first on the depth<=3 universe, is_valid on every string of <=4 (thorough 5) components over {'', ., .., a\\0b, a, é, a., ..a, \\0} x leading/trailing slash; generated: random longer paths/strings and trees (source walk, listing and independently decoded index each strictly increasing under the reference order and equal to the model's path set). Non-trivial pair = distinct paths sharing the first component whose depths differ or one textually prefixes the other; non-trivial tree = >=2 directory levels with sibling names that extend one another; enumerated items are distinct by construction, generated ones by case hash",
+        rule: "enumeration: every ordered pair of the 4681 paths of depth<=4 over {a, a., a-, 'a b', b, é, .x, ~} (cmp vs documented order, antisymmetry, equality), every triple of the 259 paths of depth<=3 over 6 of them (transitivity), contiguity/children-first on the depth<=3 universe, is_valid on every string of <=4 (thorough 5) components over {'', ., .., a\\0b, a, é, a., ..a, \\0} x leading/trailing slash; generated: random longer paths/strings and trees (source walk, listing and independently decoded index each strictly increasing under the reference order and equal to the model's path set). Non-trivial pair = distinct paths sharing the first component whose depths differ or one textually prefixes the other; non-trivial tree = >=2 directory levels with sibling names that extend one another; enumerated items are distinct by construction, generated ones by case hash. A tenth of the tree cases truncate a later file of the same directory while the backup runs (index and listing must stay strictly increasing); one fixed scale probe per run (10 012 files, one entry per hunk)",
         assumptions: &[
             "reference order written from doc/format.md on byte slices, independent of src/apath.rs",
             "release-like build: conserve's debug-only order assertions are compiled out, so the oracle is the harness's own",
